@@ -31,6 +31,19 @@ def classify_store(fi: FunctionInfo, stmt, attr) -> str:
         p = getattr(p, "_parent", None)
     v = stmt.value
     if not _reads_self_attr(v, attr):
+        # a value computed from the CALL's arguments that is kept on the object makes later calls depend on earlier arguments,
+        # unless it is a key-validated cache entry  self.X = (value, key)  (CACHE rule)
+        params = {a.arg for a in fi.node.args.posonlyargs + fi.node.args.args + fi.node.args.kwonlyargs} - {"self", "cls"}
+        try:
+            from ..astutil import Canon
+            ev = Canon(Canon.single_defs(fi.node.body)).expand(v)
+        except Exception:
+            ev = v
+        used = {n.id for n in ast.walk(ev) if isinstance(n, ast.Name)} & params
+        keyed = isinstance(v, ast.Tuple) and len(v.elts) == 2 and any(
+            isinstance(c, ast.Compare) and f"self.{attr}[1]" in src(c) for c in ast.walk(fi.node))
+        if used and not keyed:
+            return "sticky:" + ",".join(sorted(used))
         return "independent"
     # self.x = <wrap>([e for e in self.x if p(e)])   with p not reading self.x
     comp = None
